@@ -268,10 +268,13 @@ def files(ctx, n, viol):
                 intent.append(("variable", (vn, more, False)))
         att = "@{exec_path}" if nvars and rng.random() < 0.8 else rng.choice(["", "/usr/bin/" + name])
         flags = rng.choice([[], ["complain"], ["attach_disconnected", "complain"]])
-        xattrs = rng.random() < 0.1
+        xattrs = {}
+        if rng.random() < 0.15:
+            for kx in rng.sample(["user.tag", "security.tagged", "user.kind", "security.apparmor"], rng.randint(1, 3)):
+                xattrs[kx] = rng.choice(["x", "allowed", "*", "y-%s" % name])
         hdr = "profile " + name + ((" " + att) if att else "")
         if xattrs:
-            hdr += " xattrs=(user.tag=x)"
+            hdr += " xattrs=(" + " ".join("%s=%s" % kv for kv in xattrs.items()) + ")"
         if flags:
             hdr += " flags=(" + ",".join(flags) + ")"
         text = "\n".join(pre) + "\n" + hdr + " {\n  include <abstractions/base>\n\n  /etc/%s r,\n\n  include if exists <local/%s>\n}\n" % (name, name)
@@ -315,7 +318,7 @@ def files(ctx, n, viol):
             continue
         h = ok["profiles"][0]["header"]
         hx = h.get("Xattrs") or {}
-        if h.get("Name") != name or (h.get("Attachments") or []) != ([att] if att else []) or sorted(h.get("Flags") or []) != sorted(flags) or bool(h.get('Attributes') or hx) != xattrs:
+        if h.get("Name") != name or (h.get("Attachments") or []) != ([att] if att else []) or sorted(h.get("Flags") or []) != sorted(flags) or dict(h.get('Attributes') or hx) != xattrs:
             viol("C09/file/header-fields", "header read as %r, written name=%s att=%r flags=%s xattrs=%s" % (h, name, att, flags, xattrs), {"text": text})
             continue
         second.append((c, ok))
